@@ -78,3 +78,8 @@ Proof.
   - destruct f as [|x f]; [rewrite !skipn_nil; reflexivity|].
     replace (m + S o)%nat with (S (m + o)) by lia. cbn [skipn]. apply IH.
 Qed.
+
+Lemma nth_error_upd_neq {A} (l : list A) i j x : i <> j -> nth_error (upd l i x) j = nth_error l j.
+Proof. revert i j; induction l as [|a l IH]; intros [|i] [|j] H; cbn; auto; try lia. Qed.
+Lemma nth_error_upd_eq {A} (l : list A) i x : i < length l -> nth_error (upd l i x) i = Some x.
+Proof. revert i; induction l as [|a l IH]; intros [|i] H; cbn in *; try lia; auto. apply IH. lia. Qed.
